@@ -159,18 +159,42 @@ def user_classes():
             py4hw.Mux2(self, 'mux', l1, r1, r2, m)
             py4hw.Reg(self, 'reg', m, out, enable=l2)
 
-    _classes.update(CounterBehavioural=CounterBehavioural, SelectType=SelectType, Acc=Acc, Box2=Box2, Outer=Outer)
+    class Stage(py4hw.Logic):
+        """structural one-stage delay (register below a block that may carry its own clock driver)"""
+        def __init__(self, parent, name, a, r):
+            super().__init__(parent, name)
+            self.addIn('a', a); self.addOut('r', r)
+            py4hw.Reg(self, 'r', a, r)
+
+    class Pipe(py4hw.Logic):
+        """accumulator + delay stage; optionally a nested block in a THIRD clock domain derived inside this one"""
+        def __init__(self, parent, name, d, q, z, inner_domain=None):
+            super().__init__(parent, name)
+            self.addIn('d', d); self.addOut('q', q); self.addOut('z', z)
+            w = q.getWidth()
+            s = self.wire('s', w)
+            py4hw.Add(self, 'add', q, d, s)
+            py4hw.Reg(self, 'acc', s, q)
+            self.stage = Stage(self, 'stage', q, z)
+            if inner_domain is not None:
+                en = self.wire('en2'); py4hw.Bit(self, 'en2', q, 0, en)
+                q2 = self.wire('q2', w + 1); d2 = self.wire('d2', w + 1)
+                py4hw.ZeroExtend(self, 'zx', q, d2)
+                self.inner = Stage(self, 'inner', d2, q2)
+                self.inner.clockDriver = py4hw.ClockDriver(inner_domain, base=None, wire=en, enable=en)
+
+    _classes.update(CounterBehavioural=CounterBehavioural, SelectType=SelectType, Acc=Acc, Box2=Box2, Outer=Outer, Stage=Stage, Pipe=Pipe)
     return _classes
 
 
-FAMILIES = ['rand', 'lib', 'beh', 'alias']
+FAMILIES = ['rand', 'lib', 'beh', 'alias', 'clk2']
 
 
 def build(family, seed):
     """reproducible from (family, seed).  All circuits are legal (every port connected)."""
     py4hw = common.quiet_import()
     U = user_classes()
-    rng = random.Random(seed * 7919 + {'rand': 1, 'lib': 2, 'beh': 3, 'alias': 4, 'bad': 5}[family])
+    rng = random.Random(seed * 7919 + {'rand': 1, 'lib': 2, 'beh': 3, 'alias': 4, 'bad': 5, 'clk2': 6}[family])
     with quiet():
         if family == 'rand':
             for attempt in range(8):          # a library constructor may reject a random configuration: legal circuits only
@@ -220,6 +244,27 @@ def build(family, seed):
                 U['Box2'](hw, 'bx', a, b, r2, l)
                 py4hw.Add(hw, 'u1', b, b, r1)
             return Circ(family, seed, hw, [a, b])
+        if family == 'clk2':
+            # several clock domains: a named ClockDriver on a structural sub-block, registers below it (2-3 levels).
+            # Register widths differ between domains, so that no structureName()-shared Reg module spans two domains
+            # (that collision is a Verilog-consistency matter of another property, not of this one).
+            rst = hw.wire('reset'); one = hw.wire('one'); pq = hw.wire('pq', 2); tick = hw.wire('tick')
+            py4hw.Constant(hw, 'reset', 0, rst); py4hw.Constant(hw, 'one', 1, one)
+            py4hw.ModuloCounter(hw, 'presc', rng.choice([3, 4]), rst, one, pq, tick)        # fast domain: Reg2...
+            ws = rng.choice([5, 9, 12])
+            d = hw.wire('d', ws); q = hw.wire('q', ws); z = hw.wire('z', ws)
+            variant = rng.randrange(3)
+            slow = U['Pipe'](hw, 'slow', d, q, z, inner_domain='clk_inner' if variant == 1 else None)
+            slow.clockDriver = py4hw.ClockDriver(rng.choice(['clk_slow', 'clk_div']), base=hw.clockDriver, wire=tick, enable=tick)
+            if variant == 1:
+                slow.inner.clockDriver.base = slow.clockDriver
+            if variant == 2:                                                                  # a second derived domain, sibling
+                t2 = hw.wire('tick2'); py4hw.Not(hw, 'ntick', tick, t2)
+                d3 = hw.wire('d3', ws + 2); q3 = hw.wire('q3', ws + 2); z3 = hw.wire('z3', ws + 2)
+                other = U['Pipe'](hw, 'other', d3, q3, z3)
+                other.clockDriver = py4hw.ClockDriver('clk_other', base=hw.clockDriver, wire=t2, enable=t2)
+                return Circ(family, seed, hw, [d, d3])
+            return Circ(family, seed, hw, [d])
         if family == 'bad':
             r1 = hw.wire('r1', w); l = hw.wire('l')
             bx = U['Box2'](hw, 'bx', a, b, r1, l)
